@@ -309,6 +309,10 @@ def step(w, i, op):
             sc.read_all(p, "c")
             e["invalid_c"] = True
             e["invalid_s"] = True
+        if p.c.session is not e["session"]:
+            # the client kept a copy made before this connection ended: that
+            # copy knows nothing of the failure
+            e["invalid_c"] = False
         e["closed"] = True
         w.changed = True
         w.labels.append("close:" + kind)
